@@ -565,13 +565,51 @@ func c02Unstash(p *Program, r *Report) {
 		}
 		// loop bound: the If guarding the body compares the index with B (or ranges a prefix stash[:B])
 		var bound ssa.Value
-		for _, ifi := range ifsOf(un) {
-			f, ok := condFact(ifi.Cond, true)
-			if !ok || f.Y == nil {
-				continue
+		// `for i := 0; i < B; i++` tests i < B at the loop head; `for i := range B` is rotated: 0 < B before the loop and
+		// i+1 < B at its end. The body is dominated by the union of the guards on one bound B.
+		guards := map[ssa.Value]map[edge]bool{}
+		addG := func(b ssa.Value, e edge) {
+			if guards[b] == nil {
+				guards[b] = map[edge]bool{}
 			}
-			if (f.X == idx || f.X == ssa.Value(ph)) && f.Op == token.LSS && g.DominatedByEdges(e, map[edge]bool{g.branchEdge(ifi, true): true}) {
-				bound = f.Y
+			guards[b][e] = true
+		}
+		for _, ifi := range ifsOf(un) {
+			for _, outcome := range []bool{true, false} {
+				f, ok := condFact(ifi.Cond, outcome)
+				if !ok {
+					continue
+				}
+				if f.Y != nil && f.Op == token.LSS {
+					isIdx := f.X == idx || f.X == ssa.Value(ph)
+					if bo, isB := f.X.(*ssa.BinOp); isB && bo.Op == token.ADD && (bo.X == idx || bo.X == ssa.Value(ph)) {
+						if c, isC := constInt(bo.Y); isC && c == 1 {
+							isIdx = true // the incremented index of a rotated loop
+						}
+					}
+					if isIdx {
+						addG(f.Y, g.branchEdge(ifi, outcome))
+					}
+				}
+				if f.Y == nil && !f.IsNil && !f.Bool && f.Op == token.GTR && f.C == 0 {
+					addG(f.X, g.branchEdge(ifi, outcome)) // 0 < B
+				}
+			}
+		}
+		for b, es := range guards {
+			hasIdx := false
+			for ed := range es {
+				if ifi, ok := g.Nodes[ed.from].(*ssa.If); ok {
+					if f, ok := condFact(ifi.Cond, true); ok && f.Y != nil {
+						hasIdx = true
+					}
+					if f, ok := condFact(ifi.Cond, false); ok && f.Y != nil {
+						hasIdx = true
+					}
+				}
+			}
+			if hasIdx && g.DominatedByEdges(e, es) {
+				bound = b
 			}
 		}
 		if bound == nil {
